@@ -334,6 +334,44 @@ theorem ofFns_wf (n : Nat) (le tl cell : Nat → Nat) (comb : Bool)
 
 /-! ## safety -/
 
+/-- like layered_safe, but the separating layer is a real layer: l + 1 ≤ tl n -/
+theorem layered_safe_bounded (n : Nat) (le tl cell : Nat → Nat) (comb : Bool)
+    (hle : ∀ i j, i < j → j ≤ tl n → le i < le j)
+    (htl : ∀ i, i < n → tl i + 2 ≤ tl (i + 1))
+    (s : LSt) (hs : (LCfg.ofFns n le tl cell comb).Reach s)
+    (a b : Nat) (ha : 1 ≤ a) (hab : a < b) (hb : b ≤ n)
+    (hA : s.ph a = .insc) (hB : s.ph b = .insc) :
+    ∃ l, l + 1 ≤ tl n ∧ s.pos a < le l ∧ le (l + 1) ≤ s.pos b := by
+  have _ := hB
+  have inv := LInv_reach (ofFns_wf n le tl cell comb hle htl) hs
+  have hpa : s.pos a < le (tl a) := inv.actB a ha (by simp [LCfg.ofFns]; omega) (by simp [hA])
+  have hpb : le (tl (b - 1)) ≤ s.pos b := inv.posA b (by omega) (by simpa [LCfg.ofFns] using hb)
+  have htla : tl (a - 1) + 2 ≤ tl a := by
+    have := htl (a - 1) (by omega)
+    have e : a - 1 + 1 = a := by omega
+    rw [e] at this; exact this
+  have htan : tl a ≤ tl n := tl_le htl a (by omega)
+  have hta1 : tl a + 2 ≤ tl (a + 1) := htl a (by omega)
+  have hta1n : tl (a + 1) ≤ tl n := tl_le htl (a + 1) (by omega)
+  by_cases hadj : b = a + 1
+  · subst hadj
+    have e1 : a + 1 - 1 = a := by omega
+    rw [e1] at hpb
+    by_cases hw : s.pos a < le (tl a - 1)
+    · refine ⟨tl a - 1, by omega, hw, ?_⟩
+      have e : tl a - 1 + 1 = tl a := by omega
+      rw [e]; exact hpb
+    · have hf : s.fence (a + 1) = true :=
+        inv.waitE a (le (tl a - 1)) ha (by simp [LCfg.ofFns]; omega)
+          (by simp [LCfg.ofFns]; omega) (by rw [hA]; simp; omega)
+      have ho := (inv.openF (a + 1) (le (tl a + 1) - 1) (by omega) (by simpa [LCfg.ofFns] using hb)
+        (by simp [LCfg.ofFns]; omega)).1 hf
+      exact ⟨tl a, by omega, hpa, by omega⟩
+  · refine ⟨tl a, by omega, hpa, ?_⟩
+    have h1 := tl_mono' htl (a + 1) (b - 1) (by omega) (by omega)
+    have := le_mono hle (tl a + 1) (tl (b - 1)) (by omega) (tl_le htl (b - 1) (by omega))
+    omega
+
 /-- two workers that are inside scatter() at the same time are separated by a complete layer
     (so their layers are at least 2 apart) — for all interleavings -/
 theorem layered_safe (n : Nat) (le tl cell : Nat → Nat) (comb : Bool)
@@ -343,32 +381,20 @@ theorem layered_safe (n : Nat) (le tl cell : Nat → Nat) (comb : Bool)
     (a b : Nat) (ha : 1 ≤ a) (hab : a < b) (hb : b ≤ n)
     (hA : s.ph a = .insc) (hB : s.ph b = .insc) :
     ∃ l, s.pos a < le l ∧ le (l + 1) ≤ s.pos b := by
+  obtain ⟨l, _, h1, h2⟩ := layered_safe_bounded n le tl cell comb hle htl s hs a b ha hab hb hA hB
+  exact ⟨l, h1, h2⟩
+
+/-- a worker inside scatter is at a position of its own range, in particular below the total -/
+theorem layered_insc_pos_lt (n : Nat) (le tl cell : Nat → Nat) (comb : Bool)
+    (hle : ∀ i j, i < j → j ≤ tl n → le i < le j)
+    (htl : ∀ i, i < n → tl i + 2 ≤ tl (i + 1))
+    (s : LSt) (hs : (LCfg.ofFns n le tl cell comb).Reach s)
+    (w : Nat) (hw1 : 1 ≤ w) (hwn : w ≤ n) (hW : s.ph w = .insc) :
+    s.pos w < le (tl n) := by
   have inv := LInv_reach (ofFns_wf n le tl cell comb hle htl) hs
-  have hpa : s.pos a < le (tl a) := inv.actB a ha (by simp [LCfg.ofFns]; omega) (by simp [hA])
-  have hpb : le (tl (b - 1)) ≤ s.pos b := inv.posA b (by omega) (by simpa [LCfg.ofFns] using hb)
-  have htla : tl (a - 1) + 2 ≤ tl a := by
-    have := htl (a - 1) (by omega)
-    have e : a - 1 + 1 = a := by omega
-    rw [e] at this; exact this
-  by_cases hadj : b = a + 1
-  · subst hadj
-    have e1 : a + 1 - 1 = a := by omega
-    rw [e1] at hpb
-    by_cases hw : s.pos a < le (tl a - 1)
-    · refine ⟨tl a - 1, hw, ?_⟩
-      have e : tl a - 1 + 1 = tl a := by omega
-      rw [e]; exact hpb
-    · have hf : s.fence (a + 1) = true :=
-        inv.waitE a (le (tl a - 1)) ha (by simp [LCfg.ofFns]; omega)
-          (by simp [LCfg.ofFns]; omega) (by rw [hA]; simp; omega)
-      have ho := (inv.openF (a + 1) (le (tl a + 1) - 1) (by omega) (by simpa [LCfg.ofFns] using hb)
-        (by simp [LCfg.ofFns]; omega)).1 hf
-      exact ⟨tl a, hpa, by omega⟩
-  · refine ⟨tl a, hpa, ?_⟩
-    have h1 := tl_mono' htl (a + 1) (b - 1) (by omega) (by omega)
-    have h2 := htl a (by omega)
-    have := le_mono hle (tl a + 1) (tl (b - 1)) (by omega) (tl_le htl (b - 1) (by omega))
-    omega
+  have hp : s.pos w < le (tl w) := inv.actB w hw1 (by simpa [LCfg.ofFns] using hwn) (by simp [hW])
+  have := le_mono hle (tl w) (tl n) (tl_le htl w hwn) (Nat.le_refl _)
+  omega
 
 /-! ## deadlock-freedom -/
 
